@@ -159,6 +159,44 @@ func replay() {
 				continue
 			}
 			replayCodec(id, f[2], unhx(f[3]), unhx(f[4]))
+		case "CLI":
+			// CLI id pkg stdin n files…
+			if len(f) < 5 {
+				continue
+			}
+			pkg := f[2]
+			stdin := unhx(f[3])
+			n, _ := strconv.Atoi(f[4])
+			if len(f) < 5+n {
+				continue
+			}
+			bin := os.Getenv("JP_CLI_V5")
+			if pkg == "v4" {
+				bin = os.Getenv("JP_CLI_V4")
+			}
+			dir, err := os.MkdirTemp(os.Getenv("JP_SCRATCH"), "clireplay")
+			if err != nil || bin == "" {
+				continue
+			}
+			var args, fields []string
+			var texts [][]byte
+			missing := false
+			for k := 0; k < n; k++ {
+				name := fmt.Sprintf("%s/p%d.json", dir, k)
+				if f[5+k] == "MISSING" {
+					args = append(args, "-p", name+".absent")
+					fields = append(fields, "MISSING")
+					missing = true
+					continue
+				}
+				t := unhx(f[5+k])
+				os.WriteFile(name, t, 0o644)
+				args = append(args, "-p", name)
+				fields = append(fields, hx(t))
+				texts = append(texts, t)
+			}
+			emitCli(id, pkg, bin, stdin, args, fields, texts, missing)
+			os.RemoveAll(dir)
 		case "LAPPLY":
 			neg := f[2] == "1"
 			limit, _ := strconv.ParseInt(f[3], 10, 64)
